@@ -2,15 +2,16 @@ INIT Init
 NEXT Next
 CONSTANTS
   NSpecies = 3
-  Coefs <- CoefsQ
-  MaxReac = 2
-  MaxProd = 2
-  MaxIReac = 0
-  MaxIProd = 0
+  Coefs <- CoefsI
+  MaxReac = 1
+  MaxProd = 1
+  MaxIReac = 2
+  MaxIProd = 2
   Kinds = {"Reaction", "Equilibrium"}
 INVARIANT NamesInOrder
 INVARIANT NoUnitCoef
 INVARIANT AllNonUnitShown
 INVARIANT OneArrow
+INVARIANT InactiveStayOnTheirSide
 INVARIANT Emit
 CHECK_DEADLOCK FALSE
